@@ -58,7 +58,7 @@ _event = st.one_of(
     st.fixed_dictionaries({"cls": st.just("NestedAliasEv"), "typed": st.fixed_dictionaries({"inner": st.fixed_dictionaries({"item_count": st.integers(0, 9)})}), "dyn": st.just({})}),
     st.fixed_dictionaries({"cls": st.just("StrictNestedAliasEv"), "typed": st.fixed_dictionaries({"inner": st.fixed_dictionaries({"item_count": st.integers(0, 9)})}), "dyn": st.just({})}),
 )
-_exc = st.fixed_dictionaries({"type": st.sampled_from(["ValueError", "RuntimeError", "KeyError", "TimeoutError", "HarnessError", "Exception", "ZeroDivisionError"]), "msg": st.text(max_size=12)})
+_exc = st.fixed_dictionaries({"type": st.sampled_from(["ValueError", "RuntimeError", "KeyError", "TimeoutError", "HarnessError", "Exception", "ZeroDivisionError", "DecoratedError", "NoSectionError"]), "msg": st.text(max_size=12)})
 
 
 class C18(Prop):
